@@ -2,7 +2,8 @@
 process-global functools caches start empty and PYTHONHASHSEED can be chosen).
 
 usage: python -m contracts.c06_histories <reaction> <formalism> <history> ; history = comma-separated config words, the
-LAST one is the model whose digest is printed; words: see WORDS below.
+LAST one is the model whose digest is printed; words: see WORDS below. A history that starts with '@' uses ONE builder whose
+configuration is changed between the calls (no dpd words: they relabel the reaction).
 """
 
 from __future__ import annotations
@@ -49,6 +50,15 @@ def main() -> None:
     reaction, formalism, history = sys.argv[1], sys.argv[2], sys.argv[3].split(",")
     models.quiet()
     last = None
+    if history[0].startswith("@"):
+        # ONE builder (Breit-Wigner with form factor on every resonance), reconfigured between the formulate() calls
+        history[0] = history[0][1:]
+        b = models.make_builder(models.Config(reaction, formalism, dynamics="bwff"))
+        for w in history:
+            models.reconfigure(b, models.Config(reaction, formalism, **WORDS[w]))
+            last = b.formulate()
+        print(json.dumps(digest(last)))
+        return
     for w in history:
         last = models.build(models.Config(reaction, formalism, **WORDS[w]))  # dpd words relabel the final state to 1..3
     print(json.dumps(digest(last)))
